@@ -401,6 +401,7 @@ func (p *specParser) postfix() (*SExpr, error) {
 // ---------- contract files ----------
 
 type Clause struct {
+	After bool // anchor fires after the matched source line has executed (instead of before it)
 	Kind  string // requires ensures invariant assert assume
 	Match string // for assert/assume: source line substring
 	Loop  int
@@ -538,9 +539,10 @@ func (cs *ContractSet) loadContractFile(path, pkgPath string) error {
 				return fail(fmt.Errorf("ghostset outside func"))
 			}
 			w2, r2 := splitWord(rest)
-			if w2 != "at" || !strings.HasPrefix(r2, "\"") {
-				return fail(fmt.Errorf("expected: ghostset at \"source text\": name = expr"))
+			if (w2 != "at" && w2 != "after") || !strings.HasPrefix(r2, "\"") {
+				return fail(fmt.Errorf("expected: ghostset at|after \"source text\": name = expr"))
 			}
+			gsAfter := w2 == "after"
 			end := strings.Index(r2[1:], "\":")
 			if end < 0 {
 				return fail(fmt.Errorf("expected: ghostset at \"source text\": name = expr"))
@@ -555,15 +557,15 @@ func (cs *ContractSet) loadContractFile(path, pkgPath string) error {
 			if err != nil {
 				return fail(err)
 			}
-			cur.Asserts = append(cur.Asserts, &Clause{Kind: "ghostset:" + strings.TrimSpace(body[:eqi]), Match: match, Expr: e, Src: body, Line: c.no, File: path})
+			cur.Asserts = append(cur.Asserts, &Clause{Kind: "ghostset:" + strings.TrimSpace(body[:eqi]), Match: match, Expr: e, Src: body, Line: c.no, File: path, After: gsAfter})
 		case "assert", "assume":
 			if cur == nil {
 				return fail(fmt.Errorf("%s outside func", word))
 			}
 			// assert at "source text": expr
 			w2, r2 := splitWord(rest)
-			if w2 != "at" || !strings.HasPrefix(r2, "\"") {
-				return fail(fmt.Errorf("expected: %s at \"source text\": expr", word))
+			if (w2 != "at" && w2 != "after") || !strings.HasPrefix(r2, "\"") {
+				return fail(fmt.Errorf("expected: %s at|after \"source text\": expr", word))
 			}
 			end := strings.Index(r2[1:], "\":")
 			if end < 0 {
@@ -575,7 +577,7 @@ func (cs *ContractSet) loadContractFile(path, pkgPath string) error {
 			if err != nil {
 				return fail(err)
 			}
-			cur.Asserts = append(cur.Asserts, &Clause{Kind: word, Match: match, Expr: e, Src: body, Line: c.no, File: path})
+			cur.Asserts = append(cur.Asserts, &Clause{Kind: word, Match: match, Expr: e, Src: body, Line: c.no, File: path, After: w2 == "after"})
 		case "requires", "ensures", "hint", "decreases":
 			if cur == nil {
 				return fail(fmt.Errorf("%s outside func", word))
